@@ -15,7 +15,7 @@ from ..report import Report, key_of
 from ..terms import assume, cond_leaves, dag_nodes, pretty
 from ..types import Ctx
 from .c08 import check_name_tests
-from .common import TRUSTED_BASE, bound_args, cfg_nodes_for, expanded_facts, inl, subst_single_assign, where
+from .common import TRUSTED_BASE, bound_args, cfg_nodes_for, expanded_facts, facts_text, inl, loop_runs_to_end, src_resolved, subst_single_assign, where
 from .purity import check_stateless
 
 
@@ -96,6 +96,86 @@ def check_context_isolation(A, R: Report, rid: str):
             f'merging mutates / aliases its inputs ({sorted(bad_acc) or [src(a) for a in alias]}): values of one merge leak into the original contexts and into later merges', where=where(fmc))
 
 
+def merge_order(A, fmc):
+    """(ok | None, why) for Context.merge_contexts (private helpers included): forward loop over all contexts; global data
+    merged with update(); every namespace entry merged key by key into the accumulated entry of that namespace."""
+    triples = A.nodes_with_sites(fmc)
+    cparam = fmc.params[0]
+
+    def resolve(e, owner, sites, depth=0):
+        """expression of a helper rewritten in the caller's terms (helper parameters -> call arguments; single assignments)"""
+        if depth > 4:
+            return e
+        if isinstance(e, ast.Name):
+            if owner is not fmc and sites and e.id in owner.params:
+                call = sites[-1]
+                ba = bound_args(call, owner, skip_self=not owner.is_static and owner.cls is not None and isinstance(call.func, ast.Attribute) and src(call.func.value) == 'self') or {}
+                if e.id in ba:
+                    caller = fmc
+                    return resolve(ba[e.id], caller, sites[:-1], depth + 1)
+            if owner is fmc and e.id in fresh:
+                return e
+            e2 = subst_single_assign(A, owner, e)
+            if e2 is not e:
+                return resolve(e2, owner, sites, depth + 1)
+        return e
+
+    fresh = set()
+    outer = [(n, o, s_) for n, o, s_ in triples if isinstance(n, ast.For) and o is fmc and src(n.iter).replace(' ', '') in (cparam, f'list({cparam})', f'iter({cparam})')]
+    rev = [n for n, o, s_ in triples if isinstance(n, ast.For) and o is fmc and ('reversed' in src(n.iter) or '[::-1]' in src(n.iter)) and cparam in src(n.iter)]
+    if rev:
+        return False, 'contexts are iterated in reverse'
+    if len(outer) != 1 or not isinstance(outer[0][0].target, ast.Name):
+        return None, 'loop over the contexts not recognised'
+    lp = outer[0][0]
+    cv = lp.target.id
+    if not loop_runs_to_end(lp):
+        return False, 'the loop over the contexts can end early'
+    for n, o, s_ in triples:
+        if o is fmc and isinstance(n, (ast.Assign, ast.AnnAssign)) and isinstance(n.targets[0] if isinstance(n, ast.Assign) else n.target, ast.Name) and n.value is not None:
+            v = n.value
+            if (isinstance(v, ast.Dict) and not v.keys) or (isinstance(v, ast.Call) and src(v.func) in ('dict', 'defaultdict', 'OrderedDict') and all(src(x) == 'dict' for x in v.args)):
+                fresh.add((n.targets[0] if isinstance(n, ast.Assign) else n.target).id)
+    inside = {id(x) for x in ast.walk(lp)}
+    in_loop = [(n, o, s_) for n, o, s_ in triples if id(n) in inside or any(id(c) in inside for c in s_)]
+    data_ok = ns_ok = False
+    wholesale = first_wins = False
+    for n, o, s_ in in_loop:
+        if not (isinstance(n, ast.Call) and isinstance(n.func, ast.Attribute)):
+            continue
+        if n.func.attr == 'setdefault':
+            first_wins = True
+        if n.func.attr != 'update' or len(n.args) != 1:
+            continue
+        recv = resolve(n.func.value, o, s_)
+        arg = resolve(n.args[0], o, s_)
+        if isinstance(recv, ast.Name) and recv.id in fresh and src(arg) == f'{cv}.data':
+            data_ok = True
+        if isinstance(recv, ast.Name) and recv.id in fresh and src(arg) == f'{cv}.for_namespaces':
+            wholesale = True
+        # <acc>[ns].update(values) inside `for ns, values in <ctx>.for_namespaces.items()`
+        inner = [p for p in _parents(n) if isinstance(p, ast.For)]
+        for ip in inner:
+            if not (isinstance(ip.iter, ast.Call) and isinstance(ip.iter.func, ast.Attribute) and ip.iter.func.attr == 'items' and isinstance(ip.target, ast.Tuple) and len(ip.target.elts) == 2
+                    and all(isinstance(e_, ast.Name) for e_ in ip.target.elts)):
+                continue
+            seq = resolve(ip.iter.func.value, o, s_)
+            if src(seq) != f'{cv}.for_namespaces':
+                continue
+            kv, vv = ip.target.elts[0].id, ip.target.elts[1].id
+            if isinstance(recv, ast.Subscript) and src(recv.slice) == kv and src(arg) == vv:
+                base = resolve(recv.value, o, s_)
+                if isinstance(base, ast.Name) and base.id in fresh and loop_runs_to_end(ip):
+                    ns_ok = True
+    if first_wins:
+        return False, 'setdefault keeps the first value'
+    if wholesale:
+        return False, 'whole per-namespace mapping is overwritten, entries of one namespace are not merged'
+    if not data_ok or not ns_ok:
+        return None, f'merge idiom not recognised (data merged: {data_ok}, namespace entries merged: {ns_ok})'
+    return True, ''
+
+
 def run(A, R: Report, thorough: bool):
     R.explanation = ('CFG ordering of the context updates; taint rule with deepcopy as sanitiser on every flow from a context into a config; freshness of merge accumulators; '
                      'sibling cross-check of the Config(...) constructions for used configs; branch facts at the required / dtype raises; class-table analysis of degenerate container '
@@ -122,12 +202,12 @@ def run(A, R: Report, thorough: bool):
         R.check(back is None and dom, 'R09.1', 'Config.apply_context', key_of('order', back is None, dom), 'global entries first, namespace entries override them',
                 'the per-namespace entry can be applied before (and be overwritten by) the global context data', where=where(fac))
     fmc = ctxc.lookup('merge_contexts')
-    loops = [n for n in A.typer.own_nodes(fmc) if isinstance(n, ast.For) and src(n.iter).startswith(fmc.params[0])]
-    rev = any('reversed' in src(n.iter) or '[::-1]' in src(n.iter) for n in A.typer.own_nodes(fmc) if isinstance(n, ast.For))
-    ups = [n for lp in loops for n in ast.walk(lp) if isinstance(n, ast.Call) and isinstance(n.func, ast.Attribute) and n.func.attr == 'update']
-    setdefaults = [n for lp in loops for n in ast.walk(lp) if isinstance(n, ast.Call) and isinstance(n.func, ast.Attribute) and n.func.attr == 'setdefault']
-    R.check(bool(loops) and not rev and len(ups) >= 2 and not setdefaults, 'R09.1', 'Context.merge_contexts', key_of('merge-order', rev, len(ups), len(setdefaults)), 'forward iteration with update(): later wins',
-            'contexts are not merged in forward order with overwriting updates: an earlier context can win over a later one', where=where(fmc))
+    ok_m, why_m = merge_order(A, fmc)
+    if ok_m is None:
+        R.undecided('R09.1', 'Context.merge_contexts', why_m, where=where(fmc))
+    else:
+        R.check(ok_m, 'R09.1', 'Context.merge_contexts', key_of('merge-order', why_m), 'forward iteration; data and each namespace entry updated key by key: later wins',
+                f'contexts are not merged in forward order with overwriting, key-by-key updates ({why_m}): an earlier context can win over a later one, or whole namespace entries are replaced', where=where(fmc))
 
     # ---- R09.2
     R.rule('R09.2', 'everything copied from a context into a config passes deepcopy; merge accumulators are fresh containers; config / context construction keeps no shared parse state', floor=4)
@@ -214,9 +294,9 @@ def run(A, R: Report, thorough: bool):
     fsv = par.lookup('set_value')
     cfg = A.cfg(fsv)
     raises = [n for n in cfg.nodes.values() if n.kind == 'stmt' and isinstance(n.ast, ast.Raise) and n.id in cfg.reachable_nodes()]
-    req = [r for r in raises if any(src(a) == 'self.required' and pol for a, pol in cfg.facts_at(r.id)) and
-           any(('name_in_config' in src(a) and ' in ' in src(a) and not pol) or ('not in' in src(a) and pol) or ('is None' in src(a) and pol) for a, pol in cfg.facts_at(r.id))]
-    typ = [r for r in raises if any('isinstance' in src(a) and 'dtype' in src(a) and not pol for a, pol in cfg.facts_at(r.id))]
+    req = [r for r in raises if any(t_ == 'self.required' and pol for t_, pol in facts_text(A, fsv, cfg, r.id)) and
+           any(('name_in_config' in t_ and ' in ' in t_ and ' not in ' not in t_ and not pol) or ('name_in_config' in t_ and ' not in ' in t_ and pol) or ('is None' in t_ and pol) for t_, pol in facts_text(A, fsv, cfg, r.id))]
+    typ = [r for r in raises if any('isinstance' in t_ and 'dtype' in t_ and not pol for t_, pol in facts_text(A, fsv, cfg, r.id))]
     R.check(bool(req), 'R09.5', 'Parameter.set_value: required', key_of('required-raise'), 'raises when absent and required', 'a required parameter that is missing from the config no longer raises', where=where(fsv))
     R.check(bool(typ), 'R09.5', 'Parameter.set_value: dtype', key_of('dtype-raise'), 'raises on wrong type', 'a value of the wrong type no longer raises', where=where(fsv))
     stores = [v for c, v in A.typer.attr_store_exprs.get((par.qualname, '_value'), []) if c.func is fsv]
@@ -313,11 +393,21 @@ def run(A, R: Report, thorough: bool):
             ok8 = ok8 and guard and val_ok and same_list
     R.check(ok8, 'R09.8', 'Config._update_uses', key_of('part-rewrite', [src(s_[0]) for s_ in stores8]), '`#part` -> `<own file>#part`', '`#part` references are not rewritten to the own file (or other entries are rewritten too)', where=where(fuu))
     fgp = cfgc.lookup('_get_part')
-    text = '\n'.join(src(o.node) for o in {o.qualname: o for _, o in A.nodes(fgp)}.values())
-    sel = "['configs'][self._part]" in text
-    main = 'main_part' in text and 'raise KeyError' in text
-    R.check(sel and main, 'R09.8', 'Config._get_part', key_of('part-select', sel, main), 'named part, else the main part, else an error', 'part selection no longer is: the named part, else the unique main part, else an error', where=where(fgp))
-
+    cfgp = A.cfg(fgp)
+    dstores = [n for n in inl(A, fgp) if isinstance(n, ast.Assign) and any(src(x) == 'self._data' for t_ in n.targets for x in ([t_] + (list(t_.elts) if isinstance(t_, (ast.Tuple, ast.List)) else [])))]
+    atp = A.sym.terms_at(fgp, ('inst', cfgc), [n.value for n in dstores])
+    named = ('index', ('index', ('attr', ('self',), '_data'), ('lit', 'configs')), ('attr', ('self',), '_part'))
+    sel = any(t_ == named for n in dstores for t_ in atp.get(id(n.value), []))
+    sel_guard = any(any(t_ in ('self._part',) and pol for t_, pol in facts_text(A, fgp, cfgp, cn.id)) for n in dstores for cn in cfg_nodes_for(cfgp, n)
+                    if any(t_ == named for t_ in atp.get(id(n.value), [])))
+    main = any(any("get('main_part'" in t_ and pol for t_, pol in facts_text(A, fgp, cfgp, cn.id)) for n in dstores for cn in cfg_nodes_for(cfgp, n))
+    final_raise = any(n.kind == 'stmt' and isinstance(n.ast, ast.Raise) and 'KeyError' in src(n.ast) and n.id not in cfgp.in_handler and n.id in cfgp.reachable_nodes() for n in cfgp.nodes.values())
+    missing_raise = any(n.kind == 'stmt' and isinstance(n.ast, ast.Raise) and 'KeyError' in src(n.ast) and n.id in cfgp.in_handler for n in cfgp.nodes.values())
+    if not dstores:
+        R.undecided('R09.8', 'Config._get_part', 'part selection idiom not recognised', where=where(fgp))
+    else:
+        R.check(sel and sel_guard and main and final_raise and missing_raise, 'R09.8', 'Config._get_part', key_of('part-select', sel, sel_guard, main, final_raise, missing_raise),
+                'named part, else the main part, else an error', 'part selection no longer is: the named part (error if absent), else the unique main part, else an error', where=where(fgp))
 
 def _parents(n):
     p = getattr(n, '_parent', None)
